@@ -302,6 +302,7 @@ def cases(tier, seed):
         for i in range(6):
             out.append({"k": "compose", "s": list(shape), "part": i, "parts": 6})
     out.append({"k": "creation"})
+    out.append({"k": "twins"})
     return out
 
 
@@ -355,6 +356,19 @@ def run_case(case, R):
                            lambda: p[unwrap(idx)], lambda: m.map(lambda c: c[unwrap(idx)]), tags, names, dtype,
                            {"k": "one", "s": list(shape), "v": var, "label": "index " + idx_label(idx)})
             R.sample({"input_shape": shape, "variant": var, "example_index": idx_label((slice(None, None, -1),))})
+    elif k == "twins":
+        seq = [sp for sp in space.twin_sequence() if tuple(sp["s"]) == (2,)]
+        for i, sp in enumerate(seq):
+            p, m = build_checked(sp), model_of(sp)
+            R.state(("twins", i))
+            for label, fname, g in unary_calls((2,)):
+                if not hasattr(numpoly, fname) or hash(label) % 4:
+                    continue
+                judge_call(R, f"{label} on twin {i} {sp['n']}", fname, "numpoly", lambda: g(getf(numpoly, fname), p),
+                           lambda: m.map(lambda c: g(getf(numpy, fname), c)), ["twins"], p.names, p.dtype, None)
+            for idx in ((0,), (slice(None, None, -1),), ([1, 0],)):
+                judge_call(R, f"index {idx_label(idx)} on twin {i}", "getitem", "operator", lambda: p[unwrap(idx)],
+                           lambda: m.map(lambda c: c[unwrap(idx)]), ["twins"], p.names, p.dtype, None)
     elif k == "multi":
         run_multi(case, R)
     elif k == "compose":
